@@ -51,7 +51,7 @@ func New(capacity int, period time.Duration) Limiter {
 	}
 	l := &limiter{
 		controller: c,
-		capacity:   capacity,
+		capacity:   max(capacity, 0), // A negative capacity grants nothing, like zero
 	}
 	c.root = l
 	go func() {
@@ -119,7 +119,7 @@ func (l *limiter) New(capacity int) Limiter {
 	child := &limiter{
 		controller: l.controller,
 		parent:     l,
-		capacity:   capacity,
+		capacity:   max(capacity, 0),
 	}
 	l.children = append(l.children, child)
 	return child
@@ -143,7 +143,7 @@ func (l *limiter) Cap(applyParentCaps bool) int {
 
 func (l *limiter) SetCap(capacity int) {
 	l.controller.lock.Lock()
-	l.capacity = capacity
+	l.capacity = max(capacity, 0)
 	l.controller.lock.Unlock()
 }
 
